@@ -39,6 +39,7 @@ type Churn struct {
 	MidLeaveOther  bool // non-participants leave mid-hand
 	MidLeavePart   bool // a dealt-in player leaves mid-hand (recorded finding of C01/C02)
 	RandomSeat     bool
+	Batch          bool // batch leaves and UpdateTablePlayers calls
 	ResumePaused   bool
 	MaxOpsPerPoint int
 }
@@ -157,6 +158,40 @@ func (p *Play) Leave(phase, id string) OpRec {
 	return p.record(OpRec{Kind: "leave", ID: id, Phase: phase}, err)
 }
 
+// LeaveMany removes several players with one PlayersLeave call.
+func (p *Play) LeaveMany(phase string, ids []string) OpRec {
+	err := p.SS.S.Leave(ids...)
+	if err == nil {
+		for _, id := range ids {
+			p.Out += p.Exp[id]
+			delete(p.Exp, id)
+		}
+	}
+	return p.record(OpRec{Kind: "leave", ID: fmt.Sprint(ids), Phase: phase}, err)
+}
+
+// UpdateBatch issues one UpdateTablePlayers call (leaves first, then joins) and joins the newcomers.
+func (p *Play) UpdateBatch(phase string, joins []pt.JoinPlayer, leaves []string) OpRec {
+	_, err := p.SS.S.Update(joins, leaves)
+	if err == nil {
+		for _, id := range leaves {
+			p.Out += p.Exp[id]
+			delete(p.Exp, id)
+		}
+		for _, j := range joins {
+			p.Exp[j.PlayerID] = j.RedeemChips
+			p.In += j.RedeemChips
+		}
+	}
+	op := p.record(OpRec{Kind: "update", ID: fmt.Sprintf("join=%v leave=%v", joins, leaves), Phase: phase}, err)
+	if err == nil {
+		for _, j := range joins {
+			p.record(OpRec{Kind: "join", ID: j.PlayerID, Phase: phase}, p.SS.S.Join(j.PlayerID))
+		}
+	}
+	return op
+}
+
 func (p *Play) chipsAmount() int64 {
 	bb := p.Cfg.BB
 	if bb < p.Cfg.Dealer {
@@ -230,10 +265,70 @@ func (p *Play) betweenOps(phase string) {
 				kinds = append(kinds, "leavebusted")
 			}
 		}
+		if ch.Leave && ch.Batch && len(all) > 3 {
+			kinds = append(kinds, "leavemany")
+		}
+		if ch.Batch && ch.BuyIn && (len(free) > 0 || len(all) > 2) {
+			kinds = append(kinds, "update")
+		}
 		if len(kinds) == 0 {
 			return
 		}
+		// pick players to leave in one batch such that two seated-in players with chips remain
+		pickLeavers := func(max int) []string {
+			var out []string
+			rest := len(inAndChips(t))
+			start := r.Intn(len(all))
+			for k := 0; k < len(all) && len(out) < max; k++ {
+				ps := t.State.PlayerStates[(start+k)%len(all)] // adjacent in the player list
+				live := ps.IsIn && ps.Bankroll > 0
+				if live && rest <= 2 {
+					continue
+				}
+				if live {
+					rest--
+				}
+				out = append(out, ps.PlayerID)
+			}
+			return out
+		}
 		switch kinds[r.Intn(len(kinds))] {
+		case "leavemany":
+			if ids := pickLeavers(2 + r.Intn(2)); len(ids) >= 2 {
+				p.C.Feature("batch-leave")
+				p.LeaveMany(phase, ids)
+			}
+		case "update":
+			leaves := []string{}
+			if len(all) > 2 && r.Intn(2) == 0 {
+				leaves = pickLeavers(1 + r.Intn(2))
+			}
+			nj := 0
+			if len(free)+len(leaves) > 0 {
+				nj = 1 + r.Intn(len(free)+len(leaves))
+				if nj > 3 {
+					nj = 3
+				}
+			}
+			joins := []pt.JoinPlayer{}
+			fs := append([]int{}, free...)
+			for _, id := range leaves {
+				if i := t.FindPlayerIdx(id); i >= 0 {
+					fs = append(fs, t.State.PlayerStates[i].Seat)
+				}
+			}
+			r.Shuffle(len(fs), func(i, j int) { fs[i], fs[j] = fs[j], fs[i] })
+			for k := 0; k < nj && k < len(fs); k++ {
+				seat := fs[k]
+				if ch.RandomSeat && r.Intn(3) == 0 {
+					seat = -1
+				}
+				joins = append(joins, pt.JoinPlayer{PlayerID: p.SS.NewPlayerID(), RedeemChips: p.chipsAmount(), Seat: seat})
+			}
+			if len(joins)+len(leaves) > 0 {
+				p.C.Feature("batch-update")
+				p.UpdateBatch(phase, joins, leaves)
+			}
 		case "rebuy":
 			p.Rebuy(phase, busted[r.Intn(len(busted))], p.chipsAmount())
 		case "addon":
